@@ -172,6 +172,11 @@ void run_case(Tape& t, Stats& st) {
 		for (unsigned i = 0; i < comps; ++i) { if (i) p += t.below(6) == 0 ? "//" : "/"; std::string c = gen_string(t, 6); for (auto& ch : c) if (ch == '/' || ch == 0) ch = 'x'; if (c.empty()) c = t.flag() ? "." : "d"; p += c; }
 		if (t.below(6) == 0) p += "/";
 		single_laws(p, st);
+		{ // redundant spellings of p: a separator doubled or followed by "./" at tape-chosen places, optional leading "./" - transitivity across them
+			auto respell = [&](const std::string& x) { std::string r; if (t.below(3) == 0 && !x.empty() && x[0] != '/') r = "./"; for (char ch : x) { r.push_back(ch); if (ch == '/') { unsigned k = unsigned(t.below(4)); if (k == 1) r += "/"; else if (k == 2) r += "./"; } } return case_variant(r, t.u8()); };
+			std::string x = respell(p), y = respell(p), z = respell(p);
+			order_triple(x, y, z); order_triple(y, z, x); order_triple(z, x, y); order_triple(p, x, y);
+		}
 		std::string q = case_variant(p, t.u64());
 		order_pair(p, q, st);
 		V_CHECK(XFile::PathsAreEqual(p, q), "path equality not case-blind: " << show(p) << " vs " << show(q));
@@ -199,6 +204,29 @@ void run_sweep(Stats& st) {
 		if (!sw("triples_row", i)) continue;
 		for (size_t j = 0; j < s2.size(); ++j) for (size_t k = 0; k < s2.size(); ++k) order_triple(s2[i], s2[j], s2[k]);
 		st.evaluations += s2.size() * s2.size();
+	}
+	// path equality is an equivalence on ALL swept strings and on redundant spellings of a few paths: full relation matrix, then
+	// for every a~b and b~c require a~c (no knowledge of which spellings ought to be equal is needed)
+	{
+		std::vector<std::string> ps = s3;
+		for (const char* j1 : {"/", "//", "/./"}) for (const char* j2 : {"/", "//", "/./"}) for (const char* lead : {"", "./"}) for (const char* trail : {"", "/", "/.", "//"}) for (int up = 0; up < 2; ++up) {
+			std::string q = std::string(lead) + (up ? "A" : "a") + j1 + "b" + j2 + (up ? "C" : "c") + trail; ps.push_back(q);
+		}
+		for (const char* q : {"a/", "a//", "a/.", "a", "./a", "./a/", "a/./", ".//a", "A/.", "/a", "//a", "/a/", "/./a", "/a/."}) ps.push_back(q);
+		size_t n = ps.size(); std::vector<std::vector<uint8_t>> rel(n, std::vector<uint8_t>(n, 0));
+		if (sw("path_relation_laws")) {   // one labelled case: the matrix is always computed in full, so a replay sees the same relation
+			for (size_t i = 0; i < n; ++i) for (size_t j = 0; j < n; ++j) rel[i][j] = XFile::PathsAreEqual(ps[i], ps[j]);
+			st.evaluations += n * n;
+			for (size_t i = 0; i < n; ++i) {
+				V_CHECK(rel[i][i], "PathsAreEqual not reflexive on " << show(ps[i]));
+				for (size_t j = 0; j < n; ++j) {
+					V_CHECK(rel[i][j] == rel[j][i], "PathsAreEqual not symmetric on " << show(ps[i]) << "," << show(ps[j]));
+					if (!rel[i][j]) continue;
+					for (size_t k = 0; k < n; ++k) if (rel[j][k]) V_CHECK(rel[i][k], "PathsAreEqual not transitive: " << show(ps[i]) << " ~ " << show(ps[j]) << " ~ " << show(ps[k]) << " but not " << show(ps[i]) << " ~ " << show(ps[k]));
+				}
+			}
+			st.cls("path_relation_matrix_strings", n);
+		}
 	}
 	// join / extension laws over the swept strings
 	for (size_t i = 0; i < s2.size(); ++i) { if (!sw("join_row", i)) continue; for (size_t j = 0; j < s3.size(); ++j) join_law(s2[i], s3[j], st); }
